@@ -1,1 +1,293 @@
-/- C15: property theorems go here (only property theorems, non-vacuity examples, #print axioms). -/
+import StorageModel.C15.General
+import StorageModel.C15.Config
+/-
+  C15 — Parent and child (extension) stores stay consistent.
+
+  "For a child store layered on a parent store, an entity created through the child exists in
+  both; the child store's queries and lookups return only entities that have child data (all
+  parent entities for a store declared extended); updating through either store updates the
+  shared fields and the parent's indexes; and deleting through either store removes both
+  parts. Parent-store indexes and constraints apply identically to child entities."
+  — for all histories of create/update/patch/delete issued through either store over mixed
+  populations of plain-parent and child entities, for plain and extended child stores.
+
+  The theorems are about the engine model `StorageModel.C15` (parent store A, plain child A1,
+  extended child A2; `stepOp`, `run`, `findById`, `queryIds`, …), which follows boltz/store.go,
+  store_crud.go, store_query.go, query_scanners.go, base.go and the index protocol of
+  indexes.go, and is compared with the real stores on every run of the check.
+
+  `Config.current` — whether `BaseStore.Create` remembers the indexed values of an already
+  existing parent entity before it persists — is regenerated from the source on every run.
+  `create_captures_old_parent_values` is the obligation on that datum; with it every theorem
+  below holds for ALL histories (including Create through a child store over an existing
+  plain-parent id).  `pinned_create_violates` shows what happened without it.
+-/
+namespace StorageModel.Properties.C15
+open StorageModel.C15
+
+/-- Obligation on regenerated data: `BaseStore.Create` has one of the two shapes the model
+    has an interpreter for. -/
+theorem config_is_known : Config.known = true := by decide
+
+/-- Obligation on regenerated data: `BaseStore.Create` runs the parent's `ProcessBeforeUpdate`
+    when the parent entity already exists (the repair of 8269ce9). -/
+theorem create_captures_old_parent_values : Config.current.childCreateCapturesOld = true := by decide
+
+/-- a state reached by any history of transactions issued through A, A1 and A2 -/
+def Reached (st : St) : Prop := ∃ hist : List (List Op), st = run Config.current St.init hist
+
+theorem admissible (hist : List (List Op)) : General.Admissible Config.current hist :=
+  Or.inl create_captures_old_parent_values
+
+theorem reached_general {st : St} (h : Reached st) : General.Reached Config.current st := by
+  obtain ⟨hist, rfl⟩ := h
+  exact ⟨hist, admissible hist, rfl⟩
+
+/-- **Parent-store indexes and constraints apply identically to child entities.**  After every
+    history issued through A, A1 and A2 the parent's unique index on `name` and set index on
+    `roles` (and A1's own unique index) are exactly the image of the entity table — whatever
+    store an entity was created, extended or updated through — and no entity has an empty name. -/
+theorem parent_constraints_apply_to_child_entities (hist : List (List Op)) :
+    Inv (run Config.current St.init hist) :=
+  General.parent_constraints_apply_to_child_entities _ hist (admissible hist)
+
+/-- The engine model refines the table specification on every history: same entity table,
+    and every further operation gives the same result — success with the same table (and the
+    invariant again), or the same error. -/
+theorem model_refines_spec (hist : List (List Op)) :
+    (run Config.current St.init hist).ents = specRun [] hist ∧
+    ∀ op, match specOp (specRun [] hist) op with
+      | .error e => stepOp Config.current (run Config.current St.init hist) op = .error e
+      | .ok ents' => ∃ st', stepOp Config.current (run Config.current St.init hist) op = .ok st' ∧
+          st'.ents = ents' ∧ Inv st' := by
+  obtain ⟨h1, h2⟩ := General.model_refines_spec _ hist (admissible hist)
+  exact ⟨h1, fun op => h2 op (Or.inl create_captures_old_parent_values)⟩
+
+/-- The specification's indexes (`derive`: the image of the table, what the spec side of the
+    check prints) answer every index read exactly like the engine model's incrementally
+    maintained ones, after every history. -/
+theorem derived_indexes_agree (hist : List (List Op)) :
+    let st := run Config.current St.init hist
+    let d := derive (specRun [] hist)
+    d.ents = st.ents ∧ (∀ v, mget d.nameIdx v = mget st.nameIdx v) ∧
+    (∀ r j, (r, j) ∈ d.rolesIdx ↔ (r, j) ∈ st.rolesIdx) ∧ (∀ c, mget d.codeIdx c = mget st.codeIdx c) :=
+  General.derived_indexes_agree _ hist (admissible hist)
+
+/-- **An entity created through the child exists in both**: after a successful `Create`
+    through a child store (plain or extended; over a new id or over an existing entity that
+    lacks that child's data) the entity is found through the parent store and through the child
+    store with the shared fields and the child field given, both stores' queries return it, and
+    the parent's indexes hold it — at any point of any history. -/
+theorem create_through_child_exists_in_both (st : St) (hr : Reached st)
+    (s : Sel) (hs : s = .A1 ∨ s = .A2) (id : Id) (p : Payload) (st' : St)
+    (h : createM Config.current st s id p = .ok st') :
+    findById st' .A id = some (p.name, canon p.roles, none) ∧
+    findById st' s id = some (p.name, canon p.roles, p.child) ∧
+    id ∈ queryIds st' .A .tt ∧ id ∈ queryIds st' s .tt ∧ id ∈ iterateValidIds st' s .tt ∧
+    mget st'.nameIdx p.name = some id ∧ (∀ r, r ∈ p.roles → (r, id) ∈ st'.rolesIdx) :=
+  General.create_through_child_exists_in_both _ st (reached_general hr) s hs id p st'
+    (Or.inl create_captures_old_parent_values) h
+
+/-- **The plain child store's queries return only entities that have child data** (and all of
+    those that satisfy the filter) — for every state, every filter, unsorted and sorted scanner
+    and the id iterators alike. -/
+theorem child_query_only_child_rows (st : St) (f : Filter) (id : Id) :
+    (id ∈ queryIds st .A1 f ↔ ∃ e, mget st.ents id = some e ∧ e.c1.isSome = true ∧ f.eval e = true) ∧
+    (id ∈ querySorted st .A1 f ↔ id ∈ queryIds st .A1 f) ∧
+    (id ∈ iterateValidIds st .A1 f ↔ id ∈ queryIds st .A1 f) :=
+  General.child_query_only_child_rows st f id
+
+/-- **The extended child store's queries return all parent entities**: the very same answer as
+    the parent store's, in the same order; only `IterateValidIds` restricts to the entities
+    that have extension data. -/
+theorem extended_query_all_parent_rows (st : St) (f : Filter) :
+    queryIds st .A2 f = queryIds st .A f ∧ querySorted st .A2 f = querySorted st .A f ∧
+    (∀ id, id ∈ queryIds st .A2 f ↔ ∃ e, mget st.ents id = some e ∧ f.eval e = true) ∧
+    (∀ id, id ∈ iterateValidIds st .A2 f ↔
+      ∃ e, mget st.ents id = some e ∧ e.c2.isSome = true ∧ f.eval e = true) :=
+  General.extended_query_all_parent_rows st f
+
+/-- lookups through the plain child store find exactly the entities with child data, and
+    show the parent's shared fields -/
+theorem child_lookup_only_child_rows (st : St) (id : Id) :
+    ((findById st .A1 id).isSome = true ↔ ∃ e, mget st.ents id = some e ∧ e.c1.isSome = true) ∧
+    (∀ n r c, findById st .A1 id = some (n, r, c) → findById st .A id = some (n, r, none)) :=
+  General.child_lookup_only_child_rows st id
+
+/-- lookups through the extended child store find every parent entity (child field nil when
+    there is no extension data), with the parent's shared fields -/
+theorem extended_lookup_all_parent_rows (st : St) (id : Id) :
+    ((findById st .A2 id).isSome = (findById st .A id).isSome) ∧
+    (∀ n r c, findById st .A2 id = some (n, r, c) → findById st .A id = some (n, r, none)) ∧
+    (∀ e, mget st.ents id = some e → e.c2 = none → findById st .A2 id = some (e.name, e.roles, none)) :=
+  General.extended_lookup_all_parent_rows st id
+
+/-- **Updating through the parent store or through the child store is the same operation**:
+    for an entity with child data the parent store's `Update` *is* the child store's `Update`
+    of the stored child entity with the caller's shared fields (same resulting state, same
+    indexes, same error); and a patch through the child store that does not name the child
+    field does the same as the patch through the parent store, whatever child value it carries. -/
+theorem update_either_route_same_state (st : St) (id : Id) (e : Ent) (hm : mget st.ents id = some e)
+    (p : Payload) (chk : Option Checker) :
+    (e.hasChild .A1 = true →
+      updateM st .A id p chk = updateM st .A1 id { p with child := e.childField .A1 } chk) ∧
+    (e.hasChild .A1 = false → e.hasChild .A2 = true →
+      updateM st .A id p chk = updateM st .A2 id { p with child := e.childField .A2 } chk) ∧
+    (∀ c : Checker, chk = some c → c.child = false → e.hasChild .A1 = true →
+      updateM st .A1 id p chk = updateM st .A id p chk) ∧
+    (∀ c : Checker, chk = some c → c.child = false → e.hasChild .A1 = false → e.hasChild .A2 = true →
+      updateM st .A2 id p chk = updateM st .A id p chk) :=
+  General.update_either_route_same_state st id e hm p chk
+
+/-- … and raises the same entity events (the parent's, then the child's), so listeners of the
+    child store see an update of a child entity whichever store it was issued through; creating
+    through a child raises the created event on both stores, deleting through any store raises
+    the deleted event on the parent and on every child store that finds the entity -/
+theorem update_either_route_same_events (st : St) (id : Id) (e : Ent) (hm : mget st.ents id = some e)
+    (p p' : Payload) (chk chk' : Option Checker) :
+    (e.hasChild .A1 = true → eventsOf st (.update .A id p chk) = eventsOf st (.update .A1 id p' chk')) ∧
+    (e.hasChild .A1 = false → e.hasChild .A2 = true →
+      eventsOf st (.update .A id p chk) = eventsOf st (.update .A2 id p' chk')) ∧
+    (∀ s, s = .A1 ∨ s = .A2 → eventsOf st (.create s id p) = [⟨.A, .created, id⟩, ⟨s, .created, id⟩]) ∧
+    (∀ s s', eventsOf st (.delete s id) = eventsOf st (.delete s' id)) ∧
+    (∀ s, ⟨.A, .deleted, id⟩ ∈ eventsOf st (.delete s id) ∧ ⟨.A2, .deleted, id⟩ ∈ eventsOf st (.delete s id) ∧
+      (e.hasChild .A1 = true → ⟨.A1, .deleted, id⟩ ∈ eventsOf st (.delete s id))) :=
+  General.update_either_route_same_events st id e hm p p' chk chk'
+
+/-- **Updating through either store updates the shared fields and the parent's indexes**: a
+    successful `Update`/patch through any store leaves the entity with the shared fields the
+    checker names replaced (visible through the parent store), every other entity untouched,
+    and the parent's indexes again the exact image of the table (so the new name and roles are
+    indexed and the old ones are not) — at any point of any history. -/
+theorem update_updates_shared_fields_and_indexes (st : St) (hr : Reached st)
+    (s : Sel) (id : Id) (p : Payload) (chk : Option Checker) (st' : St)
+    (h : updateM st s id p chk = .ok st') :
+    Inv st' ∧
+    ∃ e, mget st.ents id = some e ∧
+      findById st' .A id = some ((persistShared e p chk).name, (persistShared e p chk).roles, none) ∧
+      mget st'.nameIdx (persistShared e p chk).name = some id ∧
+      (e.name ≠ (persistShared e p chk).name → mget st'.nameIdx e.name = none) ∧
+      (∀ r, (r, id) ∈ st'.rolesIdx ↔ r ∈ (persistShared e p chk).roles) ∧
+      (∀ j, j ≠ id → mget st'.ents j = mget st.ents j) :=
+  General.update_updates_shared_fields_and_indexes _ st (reached_general hr) s id p chk st' h
+
+/-- **Deleting through either store removes both parts**: `DeleteById` through the plain child,
+    the extended child or the parent is the same operation, and after it the entity is found
+    through no store, returned by no store's queries, and has no child data left. -/
+theorem delete_either_route_removes_both (st : St) (s : Sel) (id : Id) :
+    deleteM st s id = deleteM st .A id ∧
+    ∀ st', deleteM st s id = .ok st' →
+      ∀ s', findById st' s' id = none ∧ isEntityPresent st' s' id = false ∧
+        (∀ f, id ∉ queryIds st' s' f) ∧ (∀ f, id ∉ querySorted st' s' f) ∧ (∀ f, id ∉ iterateValidIds st' s' f) :=
+  General.delete_either_route_removes_both st s id
+
+/-- … and leaves no trace of the id: no index entry of the parent store or of the child store
+    refers to it any more, every other entity is untouched, and the invariant still holds. -/
+theorem delete_leaves_no_trace (st : St) (hr : Reached st) (s : Sel) (id : Id) (st' : St)
+    (h : deleteM st s id = .ok st') :
+    Inv st' ∧ mget st'.ents id = none ∧
+    (∀ v, mget st'.nameIdx v ≠ some id) ∧ (∀ r, (r, id) ∉ st'.rolesIdx) ∧ (∀ c, mget st'.codeIdx c ≠ some id) ∧
+    (∀ j, j ≠ id → mget st'.ents j = mget st.ents j) :=
+  General.delete_leaves_no_trace _ st (reached_general hr) s id st' h
+
+/-- which entities have child data changes only by `Create` through that child store and by
+    `DeleteById` (through any store) — for every state and every successful operation -/
+theorem child_data_changes_only_by_create_delete (st st' : St) (op : Op)
+    (h : stepOp Config.current st op = .ok st') (s : Sel) (hs : s = .A1 ∨ s = .A2) (j : Id) :
+    isEntityPresent st' s j = General.childDataAfter op s j (isEntityPresent st s j) :=
+  General.child_data_changes_only_by_create_delete _ st st' op h s hs j
+
+/-- `childDataAfter` spelled out: create through `s` of `j` sets it, delete of `j` clears it,
+    everything else leaves it -/
+example (s s' : Sel) (id j : Id) (p : Payload) (chk : Option Checker) (b : Bool) :
+    General.childDataAfter (.create s' id p) s j b = ((s' == s && id == j) || b) ∧
+    General.childDataAfter (.update s' id p chk) s j b = b ∧
+    General.childDataAfter (.delete s' id) s j b = (id != j && b) := ⟨rfl, rfl, rfl⟩
+
+/-- a `Create` through a child store with a name that another entity — plain-parent or child —
+    already holds is refused as a duplicate, exactly as through the parent store; so is an
+    `Update`/patch through a child store that changes the name to a taken one -/
+theorem uniqueness_enforced_through_child (st : St) (hr : Reached st)
+    (s : Sel) (id other : Id) (eo : Ent) (p : Payload)
+    (hne : other ≠ id) (ho : mget st.ents other = some eo) (hname : eo.name = p.name) :
+    (id ≠ 0 → isEntityPresent st s id = false → createM Config.current st s id p = .error .dupName) ∧
+    (∀ e chk, id ≠ 0 → mget st.ents id = some e → e.hasChild s = true → proceed chk (·.name) = true →
+      e.name ≠ p.name → updateM st s id p chk = .error .dupName) := by
+  obtain ⟨h1, h2⟩ := General.uniqueness_enforced_through_child _ st (reached_general hr) s id other eo p hne ho hname
+  exact ⟨fun a b => h1 a b (Or.inl create_captures_old_parent_values), h2⟩
+
+/-! ### non-vacuity -/
+
+/-- a mixed population reached through all three stores, with a child create over an existing
+    plain-parent entity, updates and a delete through the "other" store -/
+def sampleHist : List (List Op) :=
+  [[.create .A 2 ⟨3, [1], none⟩], [.create .A1 1 ⟨1, [1, 2], some 1⟩], [.create .A2 3 ⟨2, [2], some 2⟩],
+   [.update .A 1 ⟨1, [3], none⟩ none], [.update .A2 3 ⟨2, [], none⟩ (some ⟨false, true, false⟩)],
+   [.create .A1 4 ⟨3, [], none⟩],      -- refused: the name is held by the plain-parent entity 2
+   [.create .A1 2 ⟨4, [2, 3], some 2⟩], -- extends the plain-parent entity 2, renaming it
+   [.delete .A2 1]]
+
+example : Reached (run Config.current St.init sampleHist) := ⟨sampleHist, rfl⟩
+example : queryIds (run Config.current St.init sampleHist) .A .tt = [2, 3] := by decide
+example : queryIds (run Config.current St.init sampleHist) .A1 .tt = [2] := by decide
+example : queryIds (run Config.current St.init (sampleHist.take 6)) .A1 .tt = [1] := by decide
+example : queryIds (run Config.current St.init sampleHist) .A2 .tt = [2, 3] := by decide
+example : iterateValidIds (run Config.current St.init sampleHist) .A2 .tt = [3] := by decide
+example : mget (run Config.current St.init sampleHist).nameIdx 3 = none ∧
+    mget (run Config.current St.init sampleHist).nameIdx 4 = some 2 := by decide
+example : createM Config.current (run Config.current St.init (sampleHist.take 5)) .A1 4 ⟨3, [], none⟩
+    = .error .dupName := by decide
+
+/-! ### why the tree before 8269ce9 violated C15 -/
+
+/-- **No old values captured on Create**: `A.Create(1, name 1, roles [1,2]); A1.Create(1, name 2,
+    roles [3], code 1)` succeeded, and afterwards the parent's unique index still mapped the old
+    name to the entity and the set index still listed it under the old roles: the indexes were
+    not the image of the table. -/
+theorem pinned_create_violates :
+    let st := run ⟨false⟩ St.init [[.create .A 1 ⟨1, [1, 2], none⟩], [.create .A1 1 ⟨2, [3], some 1⟩]]
+    findById st .A 1 = some (2, [3], none) ∧ mget st.nameIdx 1 = some 1 ∧ (1, 1) ∈ st.rolesIdx ∧ ¬ Inv st := by
+  refine ⟨by decide, by decide, by decide, ?_⟩
+  intro h
+  obtain ⟨_, e, he, hk⟩ := (h.name 1 1).1 (by decide)
+  have : e = ⟨2, [3], some (some 1), none⟩ := by
+    have h2 : mget (run ⟨false⟩ St.init [[.create .A 1 ⟨1, [1, 2], none⟩], [.create .A1 1 ⟨2, [3], some 1⟩]]).ents 1
+        = some ⟨2, [3], some (some 1), none⟩ := by decide
+    rw [h2] at he; exact (Option.some.inj he).symm
+  subst this
+  exact absurd hk (by decide)
+
+/-- … and with an unchanged name the create was refused as a duplicate of the entity itself,
+    where the specification (and the repaired code) accepts it -/
+example : createM ⟨false⟩ (run ⟨false⟩ St.init [[.create .A 1 ⟨1, [], none⟩]]) .A2 1 ⟨1, [], none⟩
+    = .error .dupName := by decide
+example : (specCreate (specRun [] [[.create .A 1 ⟨1, [], none⟩]]) .A2 1 ⟨1, [], none⟩).toOption.isSome = true := by
+  decide
+example : (createM ⟨true⟩ (run ⟨true⟩ St.init [[.create .A 1 ⟨1, [], none⟩]]) .A2 1 ⟨1, [], none⟩).toOption.isSome = true := by
+  decide
+
+/-- the same history on the repaired variant replaces the index entries -/
+example :
+    let st := run ⟨true⟩ St.init [[.create .A 1 ⟨1, [1, 2], none⟩], [.create .A1 1 ⟨2, [3], some 1⟩]]
+    mget st.nameIdx 1 = none ∧ mget st.nameIdx 2 = some 1 ∧ st.rolesIdx = [(3, 1)] := by decide
+
+end StorageModel.Properties.C15
+
+#print axioms StorageModel.Properties.C15.config_is_known
+#print axioms StorageModel.Properties.C15.create_captures_old_parent_values
+#print axioms StorageModel.Properties.C15.parent_constraints_apply_to_child_entities
+#print axioms StorageModel.Properties.C15.model_refines_spec
+#print axioms StorageModel.Properties.C15.derived_indexes_agree
+#print axioms StorageModel.Properties.C15.create_through_child_exists_in_both
+#print axioms StorageModel.Properties.C15.child_query_only_child_rows
+#print axioms StorageModel.Properties.C15.extended_query_all_parent_rows
+#print axioms StorageModel.Properties.C15.child_lookup_only_child_rows
+#print axioms StorageModel.Properties.C15.extended_lookup_all_parent_rows
+#print axioms StorageModel.Properties.C15.update_either_route_same_state
+#print axioms StorageModel.Properties.C15.update_either_route_same_events
+#print axioms StorageModel.Properties.C15.update_updates_shared_fields_and_indexes
+#print axioms StorageModel.Properties.C15.delete_either_route_removes_both
+#print axioms StorageModel.Properties.C15.delete_leaves_no_trace
+#print axioms StorageModel.Properties.C15.child_data_changes_only_by_create_delete
+#print axioms StorageModel.Properties.C15.uniqueness_enforced_through_child
+#print axioms StorageModel.Properties.C15.pinned_create_violates
